@@ -15,10 +15,21 @@ pub struct MmapCase {
     pub header: bool,
     pub threads: usize,
     pub sched: Sched,
+    /// a giant record (and where it goes among the others): frequencies next to 0 and 1, counts beyond 2^16
+    #[serde(default)]
+    pub giant: Option<(gen::Giant, u16)>,
 }
 
 pub fn check_mmap(c: &MmapCase) -> Verdict {
     let mut v = Verdict::new();
+    let mut recs_all = c.recs.clone();
+    if let Some((g, at)) = &c.giant {
+        let at = crate::util::idx16(*at, recs_all.len() + 1);
+        recs_all.insert(at, Rec { id: "giant".into(), desc: None, seq: crate::util::Bytes(g.expand()) });
+        v.class(g.label());
+        v.class("mmap-giant");
+    }
+    let c = &MmapCase { recs: recs_all, giant: None, ..c.clone() };
     let n = c.recs.len();
     v.nontrivial = n >= 2 && (c.delim.len() != 1 || c.header || c.threads >= 2);
     v.class(format!("delim-len-{}", c.delim.len()));
@@ -108,8 +119,28 @@ impl Leg for Mmap {
                 let p = RecParams { max_records: if k >= 7 { 3 } else { max_records }, scale: k, max_len: 40, degenerate_w: 2, bounds: [k, 0, 0], nuc_only: false };
                 (gen::records(p), gen::sched_strategy(true, 2 * max_records)).prop_map(move |(recs, sched)| {
                     let threads = if matches!(sched, Sched::Controlled(_)) { ((threads - 1) % 6) + 1 } else { threads };
-                    MmapCase { recs, k, delim: delim.clone(), header, threads, sched }
+                    MmapCase { recs, k, delim: delim.clone(), header, threads, sched, giant: None }
                 })
+            })
+            .boxed()
+    }
+    fn check(c: &MmapCase) -> Verdict {
+        check_mmap(c)
+    }
+}
+
+/// the same writer with one giant record among a few small ones
+pub struct MmapGiant;
+impl Leg for MmapGiant {
+    type Case = MmapCase;
+    const NAME: &'static str = "mmap-giant";
+    fn strategy(tier: Tier) -> BoxedStrategy<MmapCase> {
+        let hi = tier.pick(3_400_000, 17_500_000);
+        (prop_oneof![3 => Just(1usize), 2 => 2usize..=4, 1 => 5usize..=7], delim_strategy(), any::<bool>(), gen::threads_strategy(), any::<u16>())
+            .prop_flat_map(move |(k, delim, header, threads, at)| {
+                let p = RecParams { max_records: 4, scale: k, max_len: 40, degenerate_w: 2, bounds: [k, 0, 0], nuc_only: false };
+                (gen::records(p), prop_oneof![1 => gen::giant(60_000, hi, b"ACGTN".to_vec()), 1 => gen::giant_near_one(hi.min(3_400_000))])
+                    .prop_map(move |(recs, g)| MmapCase { recs, k, delim: delim.clone(), header, threads, sched: Sched::Free, giant: Some((g, at)) })
             })
             .boxed()
     }
@@ -135,6 +166,9 @@ pub struct CovCase {
     pub bin_count: usize,
     pub norm: bool,
     pub threads: usize,
+    /// counting input unrelated to the input (other k-mers, fewer, or none at all) instead of the copies
+    #[serde(default)]
+    pub alt: Option<Vec<Rec>>,
 }
 
 pub fn check_cov(c: &CovCase) -> Verdict {
@@ -147,6 +181,11 @@ pub fn check_cov(c: &CovCase) -> Verdict {
         }
     }
     let input = io::write_input(dir.path(), "in", &c.unit, &Container::plain_fasta());
+    if let Some(a) = &c.alt {
+        all = a.clone();
+        v.class("cov-unrelated-counting-input");
+        v.class_if(a.iter().all(|r| model::windows(&r.seq, c.k).is_empty()), "cov-counting-input-without-kmers");
+    }
     let alt = io::write_input(dir.path(), "alt", &all, &Container::plain_fasta());
     let outdir = dir.path().join("out");
     std::fs::create_dir_all(&outdir).unwrap();
@@ -180,7 +219,8 @@ impl Leg for Cov {
                     _ => (edge / 2).max(1),
                 };
                 let p = RecParams { max_records: 3, scale: k, max_len: 60, degenerate_w: 1, bounds: [k, 0, 0], nuc_only: false };
-                gen::records(p).prop_map(move |unit| CovCase { unit, copies, k, bin_size, bin_count, norm, threads })
+                let pa = RecParams { max_records: 3, scale: k, max_len: 40, degenerate_w: 3, bounds: [k, 0, 0], nuc_only: false };
+                (gen::records(p), prop_oneof![2 => Just(None), 1 => gen::records(pa).prop_map(Some)]).prop_map(move |(unit, alt)| CovCase { unit, copies, k, bin_size, bin_count, norm, threads, alt })
             })
             .boxed()
     }
@@ -304,11 +344,14 @@ pub fn run(ctx: &mut Ctx) {
     ctx.run_leg::<OligoOne>(n, true, 0);
     let n = ctx.share(ctx.tier.pick(6_000, 100_000));
     ctx.run_leg::<Mmap>(n, true, 300);
+    let n = ctx.share(ctx.tier.pick(96, 2_400));
+    ctx.run_leg::<MmapGiant>(n, true, 12);
 }
 
 pub fn replay(leg: &str, case: &serde_json::Value) -> Option<Result<Verdict, String>> {
     match leg {
         "mmap-writes" => Some(crate::engine::replay_leg::<Mmap>(case)),
+        "mmap-giant" => Some(crate::engine::replay_leg::<MmapGiant>(case)),
         "cov-bins" => Some(crate::engine::replay_leg::<Cov>(case)),
         "ctr-partitions" => Some(crate::engine::replay_leg::<Ctr>(case)),
         "kcgr-vectors" => Some(crate::engine::replay_leg::<Kcgr>(case)),
